@@ -26,7 +26,6 @@ NEEDS = {
     "C20-s6": ("C20", "FooterProxy::write hashes the whole buffer before the inner write instead of the accepted prefix afterwards", "a Directory whose writer does short writes or returns Interrupted (legal for io::Write; RamDirectory / MmapDirectory never do): every file of an intact index is reported as damaged"),
     "C09-s6": ("C09", "merger: store blocks are stacked verbatim also when they were written with another compressor than the merged store declares", "docstore_compression changed on an existing index (lz4 <-> none), then a merge of older segments without deletes and with >= 6 store blocks"),
     "C07-s7": ("C07", "SegmentPostings::append_positions_with_offset caches a running prefix sum of term frequencies that is not reset by a seek into another block", "a posting list with positions longer than one 128-document block; positions read at one document, then seek into a different block at an in-block index not smaller, different term frequencies; positions read again"),
-    "C02-s8": ("C02", "merge(): the merged entry's delete cursor is cloned from the first source BEFORE the advance_deletes loop", "a merge of uncommitted segments (budget cut / several threads) whose first source's cursor is still before a delete while another source holds a document re-added after that delete"),
     "C05-s8": ("C05", "consider_merge_options: committed candidates also get the current opstamp as merge target (same mechanism as C04-s1, observed through readers)", "deletes pending while the merge options are reconsidered; a reload of a second Index instance or a rollback before the next commit"),
     "C10-s8": ("C10", "ManagedDirectory::open_write creates the file before registering it in .managed.json", "a crash between the creation of a segment file and the replacement of .managed.json: the file is an orphan no managed list will ever contain"),
     "C01-s9": ("C01", "advance_deletes deletes the superseded <seg>.<old opstamp>.del file right after writing the new one (before meta.json is replaced)", "a second delete-commit on a segment that already has a .del file and a crash between purge_deletes and the meta.json replacement"),
